@@ -79,13 +79,14 @@ def report(chk, bench, source, rejections, runs_by_id, projection):
                       signature=f"{bench['name']}:{rj.reason}:{json.dumps(run['cmds'], sort_keys=True)}")
 
 
-def validate_runs(chk, prop, bench, runs, source, wd, tag):
+def validate_runs(chk, prop, bench, runs, source, wd, tag, chunk_events=40000):
     cfg = PROPS[prop]
     traces, incidents = simcore.run_harness(bench, runs, wd, tag, nproc=12)
     if cfg["silent_sync"]:
         traces = [simcore.silence_sync(t) for t in traces]
     traces = [simcore.strip_stray(simcore.project_drop(t, prop == "C19")) for t in traces]
-    acc, rej, st = simcore.validate(bench, traces, wd, tag, invariants=cfg["invariants"], max_rejections=5)
+    acc, rej, st = simcore.validate(bench, traces, wd, tag, invariants=cfg["invariants"], max_rejections=5,
+                                    chunk_events=chunk_events)
     chk.add_trace_stats(f"{source}:{bench['name']}", acc + len(rej), st)
     chk.evaluations += len(runs)
     by_id = {r["id"]: r for r in runs}
@@ -142,6 +143,33 @@ def run(prop, tier, seed):
             runs.append(dict(id=i + 1, threads=rng.choice((1, 1, 2, 4)), tick_ns=rng.choice(TICKS),
                              t0_secs=rng.choice((0, 1_600_000_000)), lags=lags, cmds=cmds))
         validate_runs(chk, prop, b, runs, "random-driver", wd, f"b3_{bn}")
+    # 3b. C01: volume - a scheduler queue with hundreds of pending actions (one-shot, keyed, periodic, cancelled) stepped
+    #     through to the end, on one and on several threads
+    if prop == "C01":
+        b = BENCHES["chrono"]
+
+        def volume_run(i, n, tmax, threads):
+            cmds = []
+            for k in range(n):
+                kind = rng.choice(["once", "once", "keyed", "periodic", "kperiodic"])
+                cmds.append(dict(c="sched", cls="ev", target=rng.choice(["m1", "m2"]), abs=True, d=rng.randint(1, tmax),
+                                 kind=kind, per=rng.randint(1, 7) if "periodic" in kind else 0,
+                                 slot=rng.choice(["k1", "k2", "k3"]), prog=1))
+                if k % 25 == 24:
+                    cmds.append(dict(c="cancel", slot=rng.choice(["k1", "k2", "k3"])))
+            t = 0
+            while t < tmax + 3:
+                if rng.random() < 0.5:
+                    cmds.append(dict(c="step"))
+                else:
+                    d = rng.randint(1, 4)
+                    cmds.append(dict(c="step_until", abs=False, d=d))
+                    t += d
+                t += 1
+            return dict(id=i, threads=threads, tick_ns=1, t0_secs=0, lags=[], cmds=cmds)
+        vruns = [volume_run(i + 1, 300 if thorough else 140, 40 if thorough else 20, th)
+                 for i, th in enumerate((1, 4, 2, 16) if thorough else (1, 4))]
+        validate_runs(chk, prop, b, vruns, "volume (hundreds of pending actions)", wd, "volume", chunk_events=500)
     # 4. C08 (and C01: "at every moment all pending actions are strictly in the future"): a second thread issues
     #    scheduling requests through a Scheduler clone while the main thread steps; the request is logged before and
     #    after the call and TLC places its atomic effect (XSchedule) in between
